@@ -69,7 +69,7 @@ var words = []string{"", "a", "ab", "abc", "foo", "bar", "baz", "foobar", "web-1
 var keyWords = []string{"a", "b", "c", "foo", "bar", "x", "name", "tags", "meta", "n", "k1", "k2", "k3", "co:lon", "with space", "ünï", "0", "Name", "NAME", "Foo", "FOO", "Env", "ENV", "env", "9", "10", "1a", "2", "4a", "sl/ash", "ti~lde", "dot.ted", "", "a b", "-"}
 
 // DatumGens lists the constructors for Evaluate data.
-var DatumGens = []string{"doc", "docptr", "json", "jsonnum", "tmap:int", "tmap:slice", "tmap:map", "tmap:ptr", "tmap:any", "tmap:inner", "tmap:ikey", "tmap:nkey", "longlist", "odd", "odd", "bytesdoc", "bytesdoc", "names", "floats", "floats"}
+var DatumGens = []string{"doc", "docptr", "json", "jsonnum", "tmap:int", "tmap:slice", "tmap:map", "tmap:ptr", "tmap:any", "tmap:inner", "tmap:ikey", "tmap:nkey", "longlist", "odd", "odd", "bytesdoc", "bytesdoc", "names", "floats", "floats", "ptrlists"}
 
 // CollGens lists the constructors for Filter.Execute containers.
 var CollGens = []string{"coll:slice", "coll:ptrslice", "coll:array", "coll:arrayptr", "coll:arrayany", "coll:arraymap", "coll:map", "coll:intmap", "coll:named", "coll:namedmap", "coll:jsonlist", "coll:anys", "coll:nilslice", "coll:empty", "coll:anymap", "coll:ptrmap", "coll:scalar", "coll:huge", "coll:names"}
@@ -94,6 +94,41 @@ func Build(d DatumSpec) interface{} {
 			"line": []byte(r.Pick(words) + " " + r.Pick(words)),
 			"n":    r.Range(0, 3),
 		}
+	case d.Gen == "ptrlists":
+		// lists whose elements are pointers, some of them nil, one or two levels deep
+		mk := func(n int) ([]*string, []*int, []**int) {
+			var ps []*string
+			var is []*int
+			var pps []**int
+			for i := 0; i < n; i++ {
+				if r.Chance(0.3) {
+					ps = append(ps, nil)
+				} else {
+					w := r.Pick(words)
+					ps = append(ps, &w)
+				}
+				if r.Chance(0.3) {
+					is = append(is, nil)
+				} else {
+					x := r.Range(0, 9)
+					is = append(is, &x)
+				}
+				switch r.Intn(3) {
+				case 0:
+					pps = append(pps, nil)
+				case 1:
+					var inner *int
+					pps = append(pps, &inner)
+				default:
+					x := r.Range(0, 9)
+					px := &x
+					pps = append(pps, &px)
+				}
+			}
+			return ps, is, pps
+		}
+		ps, is, pps := mk(r.Range(2, 6))
+		v = map[string]interface{}{"names": ps, "nums": is, "deep": pps, "n": len(ps)}
 	case d.Gen == "floats":
 		// the same decimal numbers as float32 in one datum and float64 in the next:
 		// 0.1, 0.3, 1.1 are different numbers at the two widths
@@ -724,6 +759,11 @@ func genMixed(spec string) interface{} {
 		num = true
 		classes = strings.TrimSuffix(classes, ":pre")
 		numKeys = []string{"instance-07", "instance-21", "instance-03", "instance-15", "instance-11", "instance-02", "instance-30", "instance-09"}
+	case strings.HasSuffix(classes, ":empty"):
+		// the empty string is a legal key, and the smallest one
+		num = true
+		classes = strings.TrimSuffix(classes, ":empty")
+		numKeys = []string{"b", "", "a", "c", " ", "d", "0", "e"}
 	case strings.HasSuffix(classes, ":case"):
 		// keys that collide under case folding
 		num = true
@@ -1048,6 +1088,21 @@ func Mutate(v interface{}, seed uint64) {
 			}
 			if m.Type().Key().Kind() == reflect.String && !m.IsNil() {
 				leaves = append(leaves, func() {
+					if len(keys) > 0 && r.Chance(0.35) {
+						// rename an entry: the same map, the same number of entries, another key set
+						k := keys[r.Intn(len(keys))]
+						val := m.MapIndex(k)
+						if val.IsValid() {
+							nk := reflect.ValueOf(k.String() + "'").Convert(m.Type().Key())
+							if !m.MapIndex(nk).IsValid() {
+								cp := reflect.New(val.Type()).Elem()
+								cp.Set(val)
+								m.SetMapIndex(k, reflect.Value{})
+								m.SetMapIndex(nk, cp)
+								return
+							}
+						}
+					}
 					if len(keys) > 0 && r.Chance(0.5) {
 						m.SetMapIndex(keys[r.Intn(len(keys))], reflect.Value{}) // delete
 						return
